@@ -9,7 +9,20 @@ use serde_json::json;
 use std::panic::{catch_unwind, AssertUnwindSafe};
 use std::sync::mpsc::channel;
 
-pub const TOKENS: [&str; 52] = ["x", "foo", "1", "23", ":=", "=", "~", "[", "]", "{", "}", "(", ")", "<", ">", "|", ";", ",", ".", "..", "..=", ":", "?", "=>", "->", "#", "\"", "```", "--", "%%", "-", "*", "{{", "}}", "\n", " ", "\t", "'", "├", "└", "│", "😀", "e\u{301}", "\r\n", "$$", "+", "/", "@", "_", "&", "!", "//"];
+pub const BASE: [&str; 52] = ["x", "foo", "1", "23", ":=", "=", "~", "[", "]", "{", "}", "(", ")", "<", ">", "|", ";", ",", ".", "..", "..=", ":", "?", "=>", "->", "#", "\"", "```", "--", "%%", "-", "*", "{{", "}}", "\n", " ", "\t", "'", "├", "└", "│", "😀", "e\u{301}", "\r\n", "$$", "+", "/", "@", "_", "&", "!", "//"];
+/// every other leaf token of the parser (sigils, arrows, Mika glyphs): paired with everything, tripled with a small core in the quick tier
+pub const RARE: [&str; 40] = ["[^", "<<:", ":>>", "http://a", "!!", "![", "(?)>", "(i)>", "(*)>", "(!)>", "(x)>", "(+)>", "~~", "**", "~~~", "__", "§", "⸢", "⸥", ">:", "~>", "?=", "@=", "⇒", "→", "<-", "←", "...", "…", "›", "‹", "⦿", "╭", "╮", "╰", "╯", ">>", "<<", "\\", "\u{a0}"];
+pub static TOKENS: once_tokens::Tokens = once_tokens::Tokens;
+pub mod once_tokens {
+  /// BASE followed by RARE, indexable like a slice
+  pub struct Tokens;
+  impl Tokens {
+    pub fn len(&self) -> usize { super::BASE.len() + super::RARE.len() }
+    pub fn get(&self, i: usize) -> &'static str { if i < super::BASE.len() { super::BASE[i] } else { super::RARE[i - super::BASE.len()] } }
+    pub fn all(&self) -> Vec<&'static str> { super::BASE.iter().chain(super::RARE.iter()).cloned().collect() }
+    pub fn is_rare(&self, i: usize) -> bool { i >= super::BASE.len() }
+  }
+}
 
 #[derive(Clone, Debug)]
 pub struct Obs { pub kind: String, pub digest: u64, pub problems: Vec<(String, String)> }
@@ -108,15 +121,16 @@ impl UnitRunner for C09 {
     let nt = TOKENS.len() as u64;
     let mut inputs: Vec<(String, &'static str)> = vec![];
     if unit < self.n_tok_units() {
-      let (a, b) = (TOKENS[(unit / nt) as usize], TOKENS[(unit % nt) as usize]);
+      let (a, b) = (TOKENS.get((unit / nt) as usize), TOKENS.get((unit % nt) as usize));
+      let rare = TOKENS.is_rare((unit / nt) as usize) || TOKENS.is_rare((unit % nt) as usize);
       if unit % nt == 0 { inputs.push((a.to_string(), "1-token")); }
       inputs.push((format!("{}{}", a, b), "2-token"));
       // quick: the third token ranges over the 26 construct-opening/closing tokens; thorough: over the whole alphabet
-      let core3: Vec<&str> = TOKENS.iter().cloned().filter(|t| self.tier == Tier::Thorough || ["[", "]", "{", "}", "(", ")", "|", "\"", "```", "--", ":=", "\n", "x", "1", ";", "{{", "$$", "<"].contains(t)).collect();
+      let core3: Vec<&str> = TOKENS.all().into_iter().filter(|t| self.tier == Tier::Thorough || (!rare && ["[", "]", "{", "}", "(", ")", "|", "\"", "```", "--", ":=", "\n", "x", "1", ";", "{{", "$$", "<"].contains(t)) || (rare && ["[", "(", "\n", "x", "|", "\"", "⸥", "⸢"].contains(t))).collect();
       for c in core3.iter() { inputs.push((format!("{}{}{}", a, b, c), "3-token")); }
       if self.tier == Tier::Thorough {
         // four tokens over the tokens that open or close a construct
-        let core: Vec<&str> = TOKENS.iter().cloned().filter(|t| ["[", "]", "{", "}", "(", ")", "<", ">", "|", "\"", "```", "--", ":=", "\n", " ", "x", "1", ";", ",", "#", "?", "=>", "->", ".", "{{", "}}"].contains(t)).collect();
+        let core: Vec<&str> = TOKENS.all().into_iter().filter(|t| ["[", "]", "{", "}", "(", ")", "<", ">", "|", "\"", "```", "--", ":=", "\n", " ", "x", "1", ";", ",", "#", "?", "=>", "->", ".", "{{", "}}"].contains(t)).collect();
         if core.contains(&a) && core.contains(&b) { for c in &core { for d in &core { inputs.push((format!("{}{}{}{}", a, b, c, d), "4-token")); } } }
       }
     } else if unit < self.n_tok_units() + self.n_corpus_units() {
@@ -182,7 +196,7 @@ impl Check for C09 {
     let mut compared = 0u64;
     for (t, d) in &digests[1] { if let Some(d0) = digests[0].get(t) { compared += 1; if d0 != d { rep.out.failures.push(Failure { key: "C09|nondeterministic|across-processes".into(), case: format!("parse({:?})", t), detail: "the outcome (tree or report rendering) differs between two processes".into(), payload: "pass1".into(), unit: 0 }); } } }
     rep.cov("texts_compared_across_processes", json!(compared));
-    rep.rule = format!("every string of 1..2 tokens, and of 3 tokens with the third from 18 construct tokens (quick) / from the whole alphabet (thorough), over a {}-token alphabet (identifiers, digits, every bracket, operators, quotes, fences, comment sigils, box-drawing arm glyphs, an emoji, a combining sequence, CRLF, ...){}; {} blocks of the repository's own .mec files (every {}th block of <= 160 bytes) with every single-grapheme deletion, duplication, adjacent swap and every prefix; bracket/quote nesting families to depth 4 (quick) / 5 (thorough); \
+    rep.rule = format!("every string of 1..2 tokens, and of 3 tokens with the third from 18 construct tokens (8 for pairs holding one of the 40 rarer sigils) (quick) / from the whole alphabet (thorough), over a {}-token alphabet (identifiers, digits, every bracket, operators, quotes, fences, comment sigils, box-drawing arm glyphs, an emoji, a combining sequence, CRLF, and every other leaf token of the parser: callout / float / prompt / footnote / image / highlight sigils, arrows, Mika glyphs, ...){}; {} blocks of the repository's own .mec files (every {}th block of <= 160 bytes) with every single-grapheme deletion, duplication, adjacent swap and every prefix; bracket/quote nesting families to depth 4 (quick) / 5 (thorough); \
       each text is parsed twice in a watchdog thread ({} s budget): the outcome must be a tree or an error report, never a panic or a non-terminating parse; every cause and annotation range of a report must lie inside text+newline with start <= end; the two parses and a parse in another worker process must render identically; evaluations = texts; non-trivial = texts that produced a tree or a report",
       TOKENS.len(), if tier == Tier::Thorough { " and every 4-token string over the 26 construct-opening/closing tokens" } else { "" }, self.n_corpus_units(), self.corpus_stride(), tier.pick(20, 40));
     rep.assumptions = vec!["a parse is called non-terminating when it exceeds the stated budget; nesting deeper than 5 is outside the bound (the parser is exponential in nesting depth)".into(), "rendering an error report (TextFormatter::format_error) is not part of this check".into(), "'reads nothing but the text' is checked structurally: parse() receives only the &str and the harness gives it no file or interpreter".into()];
